@@ -34,9 +34,9 @@ TRUSTED = ['pbt/fakezk.py', 'pbt/mastersim.py']
 BUDGET = {'quick': 3200, 'thorough': 128000}
 
 PROFILE = {
-    'weights': {'rmrestart': 4, 'badparent': 2, 'rmbucket': 1, 'rmbucketrestart': 2, 'restart': 8, 'reboot': 2, 'down': 3, 'up': 2, 'idg': 2,
+    'weights': {'bounceplace': 4, 'rmrestart': 4, 'badparent': 2, 'rmbucket': 1, 'rmbucketrestart': 2, 'restart': 8, 'reboot': 2, 'down': 3, 'up': 2, 'idg': 2,
                 'cycle': 8, 'app': 12, 'state': 5, 'downseq': 2},
-    'force': ['restart', 'state', 'rmrestart'],
+    'force': ['restart', 'state', 'rmrestart', 'bounceplace'],
     'pre': (4, 12),
     'min_servers': 2,
     'max_parts': 1,
